@@ -251,6 +251,7 @@ def fam_misc(tier):
         ('bnd', 'inh', 'both', seq('inh', rep('inh', 1, 3, rule('n')), opt(S('c'))), False),     # counted repetition of rules: skipped tokens in between
         ('bx', 'inh', 'both', rep('inh', 2, 2, rule('s')), False),
         ('ar', 'inh', 'both', seq('inh', ('arr', 2, rule('s')), opt(('arr', 3, rule('n')))), False),   # [T; N] of token-bearing nodes
+        ('pr', 'inh', 'both', ('pair', rule('n'), opt(('pair', rule('s'), rule('at')))), False),          # (T1, T2) of token-bearing nodes
     ]
     shapes = [('rule', r[0]) for r in rules] + [('rule', 'EOI')]
     env = Env('mi_rules', skip=choice(rule('ws', 'off'), rule('cm', 'off')), rules=rules, shapes=shapes)
